@@ -12,7 +12,7 @@ import vlib
 
 AUTHN_ACTIONS = ['TokenCreate', 'TokenSetStatus', 'TokenDelete', 'UserSetStatus', 'UserDelete', 'SessionCreate',
                  'SessionExpire', 'Tick', 'AuthBegin', 'AuthEnd']
-PW_FAMILIES = 8
+PW_FAMILIES = 14
 SECRET_FAMILIES = 8
 
 
@@ -195,8 +195,8 @@ def run(ctx):
     ctx.rule = ('hash table: every (stored variant, decoder set, stored secret, tried secret, raw-or-hash candidate), each under the '
                 'listed secret families (token-shaped, one char apart, empty/white space, PHC look-alikes, unicode/NUL, 5 kB, letter '
                 'case, 1-3 bytes). Passwords: histories of MaxOps calls of Set/Compare/CompareAndSet/DeleteUser over 2 users and '
-                'passwords {1,2,never-set}, sampled by seed to the bcrypt budget, password ids concretised by 8 families (shared '
-                'prefix, 72-byte boundary, composed/decomposed unicode, random, letter case, white space, one bit apart, p / p+NUL+p); non-trivial = '
+                'passwords {1,2,never-set}, sampled by seed to the bcrypt budget, password ids concretised by 14 families (shared '
+                'prefix, 72-byte boundary, composed/decomposed unicode, random, letter case, white space, one bit apart, p / p+NUL+p, never-set candidates of length 0/1/7/73/100 that fail the password policy, 72+1 bytes); non-trivial = '
                 '>=2 successful changes and >=1 check. Authentication: every 3-step history containing a request (sampled by seed '
                 'above the budget; token hashing off/sha256/sha512 round-robin) plus simulated behaviours with clock ticks; '
                 'non-trivial = behaviour with both an authenticated and a refused request')
